@@ -185,6 +185,70 @@ def clear_complete(repo: Repo) -> RuleRun:
         missing = {x for x in filled if not x.endswith("(dict-merge)")} - own_cleared
         r.check(not missing, cls, f"clear() empties {sorted(filled)}", f"{cls.name}.clear leaves {sorted(missing)} filled although assemble() appends to it on every run", cls.methods.get("clear").node if cls.methods.get("clear") else cls.node, key=f"list:{attr}")
 
+    # converse: clear() empties nothing that assemble() does not fill (user configuration: deleted set, merged pairs, ...)
+    for n in walk_shallow(clear.node):
+        tgt_attr = None
+        if isinstance(n, ast.Call) and isinstance(n.func, ast.Attribute) and n.func.attr in ("clear", "pop", "popitem", "remove", "discard"):
+            ch = attr_chain(n.func.value) or ""
+            if ch.startswith("self.") and ch.count(".") == 1 and ch.split(".")[1] not in lists:
+                tgt_attr = ch.split(".")[1]
+        elif isinstance(n, (ast.Assign, ast.AugAssign, ast.AnnAssign)):
+            for t in n.targets if isinstance(n, ast.Assign) else [n.target]:
+                if isinstance(t, ast.Attribute) and attr_chain(t.value) == "self":
+                    tgt_attr = t.attr
+        if tgt_attr is None:
+            continue
+        filled_by_asm = tgt_attr in _mutated_attrs(repo, asm, mesh)
+        r.check(
+            filled_by_asm,
+            clear,
+            f"self.{tgt_attr} is filled by assemble() and emptied by clear()",
+            f"Mesh.clear resets self.{tgt_attr} ('{ast.unparse(n)[:60]}'), which assemble() never fills: it is set by the user (e.g. Mesh.delete) and is lost "
+            "by clear()+assemble() and by backport() - a deleted operation comes back",
+            n,
+            key=f"overreach:Mesh.{tgt_attr}",
+        )
+    # state flags: whatever assemble() assigns on the mesh itself, clear() must reset
+    def assigned(fn):
+        out = {}
+        for n in ast.walk(fn.node):
+            if isinstance(n, (ast.Assign, ast.AugAssign, ast.AnnAssign)):
+                for t in n.targets if isinstance(n, ast.Assign) else [n.target]:
+                    if isinstance(t, ast.Attribute) and attr_chain(t.value) == "self":
+                        out[t.attr] = n
+        return out
+
+    asm_assigned, clear_assigned = assigned(asm), assigned(clear)
+    for a_, node_ in sorted(asm_assigned.items()):
+        r.check(
+            a_ in clear_assigned,
+            clear,
+            f"self.{a_} is assigned by assemble() and reset by clear()",
+            f"Mesh.assemble assigns self.{a_} ('{ast.unparse(node_)[:60]}') but Mesh.clear does not reset it: after assemble()+clear() the mesh still carries the "
+            "assembled state although its lists are empty (is_assembled / life-cycle guards answer wrongly)",
+            node_,
+            key=f"state:Mesh.{a_}",
+        )
+    for attr, qn in sorted(lists.items()):
+        cls = repo.cls(qn)
+        if attr not in cleared_lists or cls.methods.get("clear") is None:
+            continue
+        filled = set()
+        for m in cls.methods.values():
+            if m in asm_closure and m.name not in ("clear", "__init__"):
+                filled |= _mutated_attrs(repo, m, cls)
+        filled |= {x_attr for x_attr, _, _ in _element_growth(repo, cls, asm_closure)}
+        for x in sorted(_cleared_attrs(cls)):
+            r.check(
+                x in filled,
+                cls,
+                f"clear() empties {x}, which assemble() fills",
+                f"{cls.name}.clear empties self.{x}, which no method reachable from Mesh.assemble fills: it holds what the user declared (e.g. merged patch pairs) and is lost by "
+                "clear()+assemble() and by backport()",
+                cls.methods["clear"].node,
+                key=f"overreach:{cls.name}.{x}",
+            )
+
     # user-facing mutators must not store into cleared containers
     lifecycle = {"assemble", "clear", "backport", "write", "grade", "__init__", "add", "delete", "_add_vertices", "format_settings"}
     for m in sorted(mesh.methods.values(), key=lambda f: f.name):
